@@ -34,6 +34,9 @@ ASSUMPTIONS = [
     "SET_ADDRESS / SET_CONFIGURATION requests are well formed (bmRequestType 0x00, wLength 0); other SETUP contents are free",
     "no lone handshake packets from the host (it ACKs only data the device actually sent)",
     "bus reset is modelled through VBUS loss (session end) only; the SE0-duration path of the reset sequencer is C19",
+    "after a bus reset the host restarts control traffic with a SETUP (no IN/OUT transaction to the device before the next "
+    "SETUP): the request handlers are not reset by a bus reset, so a status-stage IN of a pre-reset SET_ADDRESS would still "
+    "commit it -- a host never sends that",
     "endpoint 1 stream always offers data (valid = 1, symbolic constant byte)",
     "the per-slot (kind, CRC-corruption / host-ACK flag, VBUS-lost) choices are enumerated as separate solver queries (cubes); "
     "OUT data packets are zero-length; the host never sends SETUP to a non-control endpoint",
@@ -200,11 +203,26 @@ def queries(tier):
             [c for c in slot_cubes(3, "SI", first="IN", defaults=dflt, table=table) if c[0][1] == "S"]
     else:
         cubes = list(slot_cubes(3, "SsIiPoNV", defaults=dflt, table=table))
+    def legal_after_reset(name):
+        """after a bus reset (VBUS loss) the host restarts with a SETUP: no IN/OUT before the next SETUP"""
+        seen_v = False
+        for ch in name:
+            if ch == "V":
+                seen_v = True
+            elif ch in "Ss":
+                seen_v = False
+            elif seen_v and ch in "IiPQOo":
+                return False
+        return True
+
+    cubes = [c for c in cubes if legal_after_reset(c[0])]
     for name, layer in cubes:
         qs.append(Query(f"bmc_3slots_{name}", f3, 32 * 3 + 2, layer=layer, covers=[], timeout=900, split=False,
                         desc=f"3 transactions {name}: device address/configuration equal the ghost after every slot"))
     if tier == "thorough":
         for name, layer in slot_cubes(4, "SIiV", first="S", defaults=dflt, table=table):
+            if not legal_after_reset(name):
+                continue
             qs.append(Query(f"bmc_4slots_{name}", f4, 32 * 4 + 2, layer=layer, covers=[], timeout=900, split=False,
                             desc=f"4 transactions {name}"))
     qs.append(Query("cosim", f3, 0, kind="cosim", cosim_cycles=100 if tier == "quick" else 400))
